@@ -433,6 +433,15 @@ def gen_cases(ctx):
         reg = {"models": 1, "layer_kb": 64, "head_us": head, "chunk_us": 3000}
         w = [[copy(0, "reg.test/library/q%d" % j), push("reg.test/library/q%d" % j, 0 if j < 3 else int(head * rng.uniform(1.1, 2.5)))] for j in range(7)]
         add("push-shared-layer", models=1, max_loaded=1, gpu="cpu", load_us=100, comp_us=100, workers=w, registry=reg, timeout_ms=8000, deadline_ms=12000)
+        # a second push of the same layer gives up while the first is still preparing (the last waiter's release() cancels
+        # the run context before Run has started any part)
+        head2 = rng.choice([60000, 100000])
+        k = rng.randint(3, 6)
+        w2 = []
+        for j in range(k):
+            w2.append([push("m%d" % j)])
+            w2.append([dict(push("m%d" % j, int(head2 * rng.uniform(1.3, 1.7))), pause_us=3000)])
+        add("push-cancel-during-prepare", models=k, max_loaded=1, gpu="cpu", load_us=100, comp_us=100, workers=w2, registry=dict(reg, head_us=head2), timeout_ms=8000, deadline_ms=12000)
     return cases
 
 
